@@ -435,8 +435,8 @@ theorem patMatch_prefix_star (lits : List Char) (name : List Char) :
       intro s
       constructor
       · intro _; exact ⟨s, rfl⟩
-      · rintro ⟨rest, rfl⟩
-        have := Matches.star (p := []) (s := []) rest Matches.nil
+      · rintro ⟨rest, h⟩
+        have := Matches.star (p := []) (s := []) s Matches.nil
         simpa using this
     | cons c l ih =>
       intro s
@@ -449,8 +449,7 @@ theorem patMatch_prefix_star (lits : List Char) (name : List Char) :
   unfold patMatch
   simp only [Bool.and_eq_true, decide_eq_true_eq, globMatch_iff, hlit]
   constructor
-  · trace_state
-    rintro ⟨⟨hn, hsuf⟩, rest, hrest⟩
+  · rintro ⟨⟨hn, hsuf⟩, rest, hrest⟩
     refine ⟨rest, name.drop (name.length - (1 + ExtQueue.assignDigits)), ?_, hsuf, ?_⟩
     · rw [← hrest, List.take_append_drop]
     · rw [List.length_drop]; omega
